@@ -12,11 +12,13 @@ package main
 
 import (
 	"bytes"
+	"os"
 	"runtime"
 	"strconv"
 	"strings"
 	"sync"
 	"sync/atomic"
+	"syscall"
 	"time"
 
 	"verifh/gate"
@@ -46,6 +48,117 @@ type sched struct {
 	mu      sync.RWMutex
 	dead    bool
 	wg      sync.WaitGroup
+
+	// watchdog verdict: worker stuckWorker did not come back from the step it was given
+	stuckState  string // "" | "spinning" | "parked"
+	stuckWorker int
+}
+
+// Watchdog.  Every step of the code under test between two gates is a handful
+// of instructions, so a worker that has not shown up at its next gate (nor
+// returned, nor parked in a way GrantPark understands) is stuck inside the code
+// under test.  To keep a loaded machine from tripping it, the verdict needs
+// wall time >= watchdogWall AND evidence from the runtime: the goroutine is
+// running/runnable in several consecutive samples and the process has burnt
+// >= watchdogCPU of CPU time since the step was granted ("spinning"), or it is
+// descheduled inside pkg/sleep in two consecutive samples ("parked").  Anything else is waited
+// for up to watchdogGiveUp and then reported as harness trouble (exit 3).
+const (
+	watchdogWall   = 5 * time.Second
+	watchdogCPU    = 2 * time.Second
+	watchdogGiveUp = 240 * time.Second
+)
+
+var spinLeaks int // goroutines left spinning by earlier verdicts
+
+// spinning: the evidence needed for the verdict.  The goroutine has been seen running/runnable in `seen`
+// consecutive samples (250 ms apart), `wall` after it was given the step, and the process has burnt `cpu` since.
+// Once goroutines leaked by earlier verdicts burn CPU themselves the CPU figure proves less: wait twice as long.
+func spinning(seen int, wall, cpu time.Duration) bool {
+	if spinLeaks == 0 {
+		return seen >= 4 && wall >= watchdogWall && cpu >= watchdogCPU
+	}
+	return seen >= 8 && wall >= 2*watchdogWall && cpu >= watchdogCPU
+}
+
+func cpuTime() time.Duration {
+	var ru syscall.Rusage
+	if syscall.Getrusage(syscall.RUSAGE_SELF, &ru) != nil {
+		return 0
+	}
+	return time.Duration(ru.Utime.Nano() + ru.Stime.Nano())
+}
+
+// watch waits for arrived() to become true; returns "" then, else the verdict.
+func watch(gid int64, already time.Duration, arrived func() bool) string {
+	start, cpu0 := time.Now().Add(-already), cpuTime()
+	parkedSeen, runningSeen := 0, 0
+	for n := 0; ; n++ {
+		if arrived() {
+			return ""
+		}
+		el := time.Since(start)
+		switch {
+		case n < 200:
+			runtime.Gosched()
+		case el < watchdogWall:
+			time.Sleep(200 * time.Microsecond)
+		default:
+			time.Sleep(250 * time.Millisecond)
+			if arrived() {
+				return ""
+			}
+			switch goroutineStatus(gid) {
+			case "parked":
+				parkedSeen++
+				runningSeen = 0
+				if parkedSeen >= 2 {
+					return "parked"
+				}
+			case "running":
+				parkedSeen = 0
+				runningSeen++
+				if spinning(runningSeen, time.Since(start), cpuTime()-cpu0) {
+					return "spinning"
+				}
+			default:
+				parkedSeen, runningSeen = 0, 0
+			}
+			if el > watchdogGiveUp {
+				fatal("watchdog: a worker neither came back nor spins nor sleeps in pkg/sleep (harness or machine trouble)")
+			}
+		}
+	}
+}
+
+// recv waits for the next message of worker w under the watchdog.
+func (s *sched) recv(w *worker) (msg, bool) {
+	select {
+	case m := <-w.msgs:
+		return m, true
+	default:
+	}
+	t := time.NewTimer(watchdogWall)
+	select {
+	case m := <-w.msgs:
+		t.Stop()
+		return m, true
+	case <-t.C:
+	}
+	var got msg
+	st := watch(w.goid, watchdogWall, func() bool {
+		select {
+		case got = <-w.msgs:
+			return true
+		default:
+			return false
+		}
+	})
+	if st == "" {
+		return got, true
+	}
+	s.stuckState, s.stuckWorker = st, w.id
+	return msg{}, false
 }
 
 func goid() int64 {
@@ -123,7 +236,11 @@ func (s *sched) Start(i int, f func() interface{}) gate.Pos {
 	}
 	w.inOp = true
 	w.cmd <- f
-	return s.take(w, <-w.msgs)
+	m, ok := s.recv(w)
+	if !ok {
+		return gate.Pos{}
+	}
+	return s.take(w, m)
 }
 
 // Grant lets worker i perform the (non-blocking) step behind its gate.
@@ -133,7 +250,11 @@ func (s *sched) Grant(i int) gate.Pos {
 		panic("sched: Grant on a worker that is not at a gate")
 	}
 	w.grant <- struct{}{}
-	return s.take(w, <-w.msgs)
+	m, ok := s.recv(w)
+	if !ok {
+		return gate.Pos{}
+	}
+	return s.take(w, m)
 }
 
 // GrantPark grants the step behind the gopark gate.  registered() reports
@@ -145,11 +266,24 @@ func (s *sched) GrantPark(i int, registered func() bool) (pos gate.Pos, parked b
 		panic("sched: GrantPark on a worker that is not at a gate")
 	}
 	w.grant <- struct{}{}
+	start, cpu0 := time.Now(), cpuTime()
+	runningSeen := 0
 	for n := 0; ; n++ {
 		select {
 		case m := <-w.msgs:
 			return s.take(w, m), false, false
 		default:
+		}
+		if n >= 1000 && n%500 == 0 && time.Since(start) > watchdogWall && goroutineStatus(w.goid) == "running" {
+			el := time.Since(start)
+			runningSeen++
+			if spinning(runningSeen, el, cpuTime()-cpu0) {
+				s.stuckState, s.stuckWorker = "spinning", w.id
+				return gate.Pos{}, false, false
+			}
+			if el > watchdogGiveUp {
+				fatal("watchdog: the sleeper neither parked nor came back nor spins (harness or machine trouble)")
+			}
 		}
 		if registered() {
 			w.parked = true
@@ -185,14 +319,18 @@ func (s *sched) AwaitWake(i int) gate.Pos {
 		panic("sched: AwaitWake on a worker that is not parked")
 	}
 	w.parked = false
-	return s.take(w, <-w.msgs)
+	m, ok := s.recv(w)
+	if !ok {
+		return gate.Pos{}
+	}
+	return s.take(w, m)
 }
 
-// goroutineParkedInSleep inspects the runtime's own view (taken with the world
-// stopped): goroutine id is waiting (not running, runnable or in a syscall),
+// goroutineStatus inspects the runtime's own view (taken with the world
+// stopped) of goroutine id: "running" (running or runnable), "parked" (waiting,
 // and the frame that called into the runtime belongs to pkg/sleep -- a worker
-// blocked at a gate is blocked in the scheduler's Hook instead.  Only used as a fallback, see GrantPark.
-func goroutineParkedInSleep(id int64) bool {
+// blocked at a gate is blocked in the scheduler's Hook instead), "other".
+func goroutineStatus(id int64) string {
 	buf := make([]byte, 1<<18)
 	n := runtime.Stack(buf, true)
 	for n == len(buf) { // truncated
@@ -206,24 +344,33 @@ func goroutineParkedInSleep(id int64) bool {
 		}
 		lines := strings.Split(blk, "\n")
 		st := lines[0][len(hdr):]
-		if strings.HasPrefix(st, "running") || strings.HasPrefix(st, "runnable") || strings.HasPrefix(st, "syscall") {
-			return false
+		if strings.HasPrefix(st, "running") || strings.HasPrefix(st, "runnable") {
+			return "running"
 		}
-		// frames: function line, file line, ...
-		var fns []string
+		if strings.HasPrefix(st, "syscall") {
+			return "other"
+		}
+		// frames: function line, file line, ...; the innermost frame outside the runtime
+		// (runtime frames are only listed at GOTRACEBACK=system)
 		for k := 1; k < len(lines); k += 2 {
-			fns = append(fns, lines[k])
-		}
-		// the innermost frame outside the runtime (runtime frames are only listed at GOTRACEBACK=system)
-		for _, f := range fns {
-			if strings.HasPrefix(f, "runtime.") {
+			if strings.HasPrefix(lines[k], "runtime.") {
 				continue
 			}
-			return strings.Contains(f, "/pkg/sleep.")
+			if strings.Contains(lines[k], "/pkg/sleep.") {
+				return "parked"
+			}
+			return "other"
 		}
-		return false
+		return "other"
 	}
-	return false
+	return "other"
+}
+
+func goroutineParkedInSleep(id int64) bool { return goroutineStatus(id) == "parked" }
+
+func fatal(m string) {
+	os.Stderr.WriteString("HARNESS-ERROR: " + m + "\n")
+	os.Exit(3)
 }
 
 // Abandon releases every worker; hooks become pass-through; force() is called
